@@ -68,26 +68,7 @@ class ExportStatus:
 
 # ------------------------------------------------------------------------------------------ Context (C07 / C12 own them)
 from contracts.c02 import (PROT, VIEW_PROT, ISM, LID, LOCAL, master, sees_running, valid, coupled, but_view,
-                           but_wiring)
-
-
-def instance_states_step(s, o, frm, to):
-    """the local view of the instances only moves from a state of `frm` to a state of `to`; the Master is kept or reset,
-    and it is reset when it is no longer seen RUNNING (update_instance_state, verified in c02.py); the local entry of the
-    state & modes map is never replaced, replaced entries are those of instances now STOPPED / ISOLATED"""
-    st, ost = LOCAL(s).instance_states, LOCAL(o).instance_states
-    return (forall(str, lambda i: (i in st) == (i in ost)
-                   and implies(i in st, st[i] == ost[i] or (ost[i] in frm and st[i] in to)))
-            and forall(str, lambda i: (i in ISM(s)) == (i in ISM(o))
-                       and implies(i in ISM(s), ISM(s)[i] is ISM(o)[i]
-                                   or (i != LID(s) and was_fresh(ISM(s)[i])
-                                       and ISM(s)[i].state == SupvisorsStates.OFF and ISM(s)[i].master_identifier == '')))
-            and LOCAL(s) is LOCAL(o)
-            and (master(s) == master(o) or master(s) == '')
-            and implies(master(s) != '' and master(s) in ost, master(s) in st and (
-                st[master(s)] == ost[master(s)] or st[master(s)] == SupvisorsInstanceStates.RUNNING))
-            and forall(str, lambda i: implies(i in ISM(s) and ISM(s)[i] is ISM(o)[i] and i != LID(s),
-                                              ISM(s)[i].master_identifier == ISM(o)[i].master_identifier)))
+                           but_wiring, instance_states_step)
 
 
 @contract('context:Context.invalidate_failed', props=[])
